@@ -112,6 +112,28 @@ Theorem C13_duals_latest :
     eval_dual (es s1) r = Ok d.
 Proof. exact duals_latest. Qed.
 
+(** Own constraints and LMIs of the functions (Function.add_constraint / add_psd_matrix, leaf and composite
+    functions) are part of [decl_of] / [sent_of] (field [d_own]), hence covered by C13_sent_fresh and
+    C13_no_growth.  The filter "has an own constraint OR an own LMI" of the sending loop drops nothing: every own
+    item of every function -- also of a function that has ONLY an own LMI -- is sent. *)
+Theorem C13_own_items_all_sent : forall s, own_refs s = flat_map (fun f => fst f ++ snd f) (fown s).
+Proof. exact own_refs_all. Qed.
+
+(** A solve with a dimension-reduction heuristic ([SolveH first rest]: the finite answer, then the answers of
+    the heuristic re-solves): every sent item carries the dual of the FIRST answer (the certificate of the
+    original problem), the leaf values are those of the LAST answer.  It is [solve s (Some (answer_of first rest))],
+    so C13_sent_fresh / C13_fresh_partial / C13_no_growth apply with that answer, in any order with plain solves. *)
+Theorem C13_heuristic_solve :
+  forall s first rest,
+    closed s ->
+    let s1 := fst (step s (SolveH first rest)) in
+    let lastS := last rest first in
+    (forall k r d, NoDup (wsent s1) -> nth_error (wsent s1) k = Some r -> nth_error (sDual first) k = Some d ->
+                   eval_dual (es s1) r = Ok d)
+    /\ lpv (es s1) = map (fun i => Some (column (sP lastS) i)) (seq 0 (length (lpv (es s))))
+    /\ lev (es s1) = map (fun i => Some (nth i (sF lastS) 0%Q)) (seq 0 (S (length (lev (es s))))).
+Proof. exact heuristic_solve. Qed.
+
 (** F-C13a: a held object whose cache dates from solve 1 keeps that number after solve 2, while a
     new object with the SAME dictionary evaluates to solution 2. *)
 Theorem C13_refuted_stale :
@@ -170,6 +192,8 @@ Print Assumptions C13_guard_before_solve.
 Print Assumptions C13_fresh_partial_guard.
 Print Assumptions C13_fresh_new_object.
 Print Assumptions C13_duals_latest.
+Print Assumptions C13_own_items_all_sent.
+Print Assumptions C13_heuristic_solve.
 Print Assumptions C13_refuted_stale.
 Print Assumptions C13_failed_solve_keeps_leaves.
 Print Assumptions C13_refuted_failed.
